@@ -747,6 +747,17 @@ class FnAnalysis:
                         src = self.iter_source(it.args[int(e.name)])
                         if src[0] in ('chunks_exact', 'windows') and src[2] is not None:
                             return (src[2], src[2])
+                    if e.name == '1':
+                        # (i, chunk) of x.chunks_exact(k).enumerate()
+                        it2 = strip(nx.args[0])
+                        enum_ = False
+                        while it2.k == 'call' and last(it2.name) in ('into_iter', 'by_ref', 'rev', 'enumerate') and it2.args:
+                            enum_ = enum_ or last(it2.name) == 'enumerate'
+                            it2 = strip(it2.args[0])
+                        if enum_:
+                            src = self.iter_source(it2)
+                            if src[0] in ('chunks_exact', 'windows') and src[2] is not None:
+                                return (src[2], src[2])
         if e.k == 'field' and e.args:
             # try(...) / unwrap of results carrying a vector
             inner = strip(e.args[0])
